@@ -41,6 +41,8 @@ def render(version, check_delay, part=None):
         i = txt.find('\n\n')
         return txt[i + 2:] if i >= 0 else ''
     circus = {'check_delay': check_delay}
+    if version.get('loglevel'):
+        circus['loglevel'] = version['loglevel']
     if part == 'main':
         circus['include'] = '@SCRATCH@/inc.ini'
     txt = ini.render(circus=circus, watchers=ws,
@@ -323,6 +325,9 @@ class C12(Prop):
                     '@SCRATCH@/%s-out.log' % w0['name']
         if rng.random() < 0.15:
             v['plugin'] = {'attempts': 3}
+            if rng.random() < 0.5:
+                # (the plugins' command lines carry the daemon's log level)
+                v['loglevel'] = rng.choice(['INFO', 'DEBUG'])
         with_inc = rng.random() < 0.2
         if with_inc:
             # part of the configuration lives in an included file
